@@ -179,6 +179,9 @@ def table_checks(ctx, net, prefix, suffix, mc, ci):
     return True
 
 
+_UNIQ = [76]
+
+
 def one_hop(ctx, net, n, d, role, ci, tag=""):
     """node n transmits towards d (as origin, or as router of an injected frame); the FIRST packet
     must be accepted by exactly the reference next hop. Returns the hop, None (violation) or
@@ -207,7 +210,10 @@ def one_hop(ctx, net, n, d, role, ci, tag=""):
                 origin = n | (1 << (3 * lvl))
                 if origin == net_ref.DEFAULT_ADDR:
                     origin = n | (2 << (3 * lvl))
-            frame = net_ref.pack_header(origin, d, 77, 0, 0) + b"c04"
+            # every injected frame is different (the receiving radio discards a packet that
+            # repeats the PID and CRC of the previous one - the PID has only 2 bits)
+            _UNIQ[0] = (_UNIQ[0] + 1) & 0xFFFF
+            frame = net_ref.pack_header(origin, d, _UNIQ[0], 0, 0) + b"c04"
             net.radios[n].inject_rx(1, frame)
             ret = net.objs[n].update()
     except W.VirtualDeadline:
